@@ -281,6 +281,7 @@ pub fn hole_prelude(variant: HoleVariant, answers: &BTreeMap<String, Answer>) ->
                     (HoleVariant::Sync, Answer::Value(v)) | (HoleVariant::Sync, Answer::DeferValue(v)) => {
                         format!("return {};", v)
                     }
+                    (_, Answer::Undefined) => "return undefined;".to_string(),
                     (HoleVariant::Sync, Answer::Error(m)) => {
                         format!("throw {};", json!(format!("TypeError: {}", m)))
                     }
@@ -389,7 +390,9 @@ impl<'a> Gen<'a> {
         self.hole_id += 1;
         let k = self.hole_id;
         let r = self.rng.below(100);
-        let ans = if immediate_only {
+        let ans = if r >= 96 {
+            Answer::Undefined
+        } else if immediate_only {
             if self.cfg.hole_errors && r < 15 {
                 Answer::Error(format!("E{}", k))
             } else {
@@ -1448,7 +1451,7 @@ impl<'a> Gen<'a> {
                         self.declare(&f, Ty::SFun, false);
                         self.tag("sync-suspending-fn");
                         return Node::leaf(format!(
-                            "function {}({}: any): any {{ let l: any = {} + 1; {{ let l: any = 5; const t: any = {}; l = l + (Number(t) || 0); }} return l; }}",
+                            "function {}({}: any): any {{ let l: any = {} + 1; {{ let l: any = 5; const t: any = {}; l = l + (Number(t) || 0) + arguments.length * 100; }} return l; }}",
                             f, p, p, h
                         ));
                     }
@@ -1478,7 +1481,7 @@ impl<'a> Gen<'a> {
                     let nb = 1 + self.rng.below(3);
                     let mut body = self.block(nb, depth + 1);
                     let ret = self.num(2);
-                    body.push(Node::leaf(format!("return {};", ret)));
+                    body.push(Node::leaf(format!("return {} + arguments.length * 1000 + (Number(arguments[0]) || 0);", ret)));
                     self.loop_depth = sl;
                     self.scopes.pop();
                     self.declare(&f, Ty::AFun, false);
@@ -1583,6 +1586,39 @@ impl<'a> Gen<'a> {
                             "const {id}: any = [{{ k: 1, t: \"a\" }}, {{ k: 0, t: \"b\" }}, {{ k: 1, t: \"c\" }}, {{ k: 0, t: \"d\" }}].sort((x: any, y: any) => x.k - y.k).map((x: any) => x.t).join(\"\"); __log.push(\"st:\" + {id});"
                         ),
                     });
+                }
+                95 if self.in_async && (!self.vars_of(Ty::SFun).is_empty() || !self.vars_of(Ty::AFun).is_empty()) => {
+                    // a caller whose callee suspends, then reads its own `arguments`
+                    self.tag("arguments-after-suspending-callee");
+                    let w = self.fresh("w");
+                    let n = self.fresh("n");
+                    let (callee, aw, kw) = match (self.pick_var(Ty::SFun), self.pick_var(Ty::AFun)) {
+                        (Some(sf), _) if self.rng.chance(0.5) => (sf.name, "", "function"),
+                        (_, Some(af)) => (af.name, "await ", "async function"),
+                        (Some(sf), None) => (sf.name, "", "function"),
+                        _ => ("Number".to_string(), "", "function"),
+                    };
+                    let a1 = self.num(1);
+                    let a2 = self.str_(0);
+                    self.declare(&n, Ty::Str, true);
+                    return Node::leaf(format!(
+                        "{kw} {w}(a: any, b: any, c?: any): any {{ const r: any = {aw}{callee}(a); return String(r) + \"/\" + arguments.length + \"/\" + String(arguments[1]) + \"/\" + String(arguments[2]); }} let {n}: any = {aw2}{w}({a1}, {a2}, \"third\") + \"|\" + {aw2}{w}({a1}, {a2});",
+                        aw2 = if kw == "async function" { "await " } else { "" }
+                    ));
+                }
+                96 if deep && self.cfg.f_try => {
+                    // an error leaves the callback of a native (caught by the program)
+                    self.tag("throw-in-native-callback");
+                    let e = self.fresh("e");
+                    let k = self.rng.below(4);
+                    let arr = self.arr(1);
+                    let body = match k {
+                        0 => format!("{arr}.concat([1, 2]).map((x: any, i: number) => {{ if (i > 0) throw new Error(\"cb\" + i); return {{ v: x }}; }});"),
+                        1 => format!("[3, 1, 2].sort((x: any, y: any) => {{ throw new TypeError(\"cmp\"); }});"),
+                        2 => format!("const g{e}: any = {{ get boom(): any {{ throw new RangeError(\"getter\"); }} }}; __log.push(String(g{e}.boom));"),
+                        _ => format!("JSON.parse(\"[1,2]\", (k: string, v: any) => {{ if (k === \"1\") throw new Error(\"rev\"); return v; }});"),
+                    };
+                    return Node::leaf(format!("try {{ {body} }} catch ({e}: any) {{ __log.push(\"cbe:\" + String({e}.message)); }}"));
                 }
                 94 if deep && self.cfg.f_try => {
                     // an object thrown by a callee travels through a finally-only handler of the
